@@ -1,8 +1,43 @@
+import Martian.Determinism
 import Driver.Util
 
-/-! Line-protocol handler for property C10 (stub: replaced when the model exists). -/
+/-! Line-protocol handler for property C10.
+  mapformat <isStruct 0|1> <prefix hex> <vindent hex> <entries>   entries: key:keyText:single:text,…  (hex fields) or `.`
+  json <entries>                                                  entries: key:keyJson:valJson,…
+  sortkeys <hex list>
+-/
 namespace Driver.C10
+open Martian.Determinism Martian.SortKeys Driver
 
-def handle (_op : String) (_args : List String) : Option String := none
+def nats (s : String) : Option (List Nat) := (bytesOfHex s).map (·.map UInt8.toNat)
+def hexOfNats (l : List Nat) : String := hexOfBytes (l.map UInt8.ofNat)
+
+def entries (s : String) : Option (List (List String)) :=
+  if s == "." then some [] else some ((s.splitOn ",").map (·.splitOn ":"))
+
+def handle (op : String) (args : List String) : Option String :=
+  match op, args with
+  | "mapformat", [st, pre, vind, es] => do
+    let pre ← nats pre
+    let vind ← nats vind
+    let es ← entries es
+    let l ← es.mapM fun f => match f with
+      | [k, kt, s, t] => do
+        let k ← nats k; let kt ← nats kt; let t ← nats t
+        pure (k, ({ keyText := kt, single := s == "1", text := t } : Rendered))
+      | _ => none
+    pure (hexOfNats (mapFormat (st == "1") pre vind l) ++ " " ++ boolStr (nodupKeys l))
+  | "json", [es] => do
+    let es ← entries es
+    let l ← es.mapM fun f => match f with
+      | [k, kj, vj] => do
+        let k ← nats k; let kj ← nats kj; let vj ← nats vj
+        pure (k, kj, vj)
+      | _ => none
+    pure (hexOfNats (jsonObject l) ++ " " ++ boolStr (nodupKeys l))
+  | "sortkeys", [ks] => do
+    let ks ← parseHexList ks
+    pure (hexList ((forkKeyParts (ks.map (·.map UInt8.toNat))).map (·.map UInt8.ofNat)))
+  | _, _ => none
 
 end Driver.C10
